@@ -137,6 +137,28 @@ def gen_json_saves(rng, tier, boost, count):
         finite = rng.random() < 0.93
         v = G.rand_value(rng, s, finite=finite)
         ops.append(json_save_op(rng, s, v))
+    # a REJECTED save (NaN / Infinity after part of the document has been produced) followed by accepted saves of the same kind of
+    # output: nothing of the rejected document may leak into the next one
+    nonfinite64 = [0x7FF8000000000000, 0x7FF0000000000000, 0xFFF0000000000000, 0xFFF8000000000001]
+    for _ in range(10 if tier == "quick" else 200):
+        vs = ("vec", ("leaf", "f64"))
+        pre = [("f64", G.bits_of_f64(float(rng.choice([1, 2.5, -3, 100])))) for _ in range(rng.choice([1, 2, 5]))]
+        bad = pre + [("f64", rng.choice(nonfinite64))]
+        cs = ("cls", [(False, b"name", ("leaf", "s")), (False, b"samples", vs), (False, b"z", ("leaf", "i32"))])
+        out = rng.choice(["str", "str", "utf8:0", "utf16le:1"])
+        cfg = rng.choice(["compact", "pretty:20:2"])
+        if rng.random() < 0.5:
+            ops.append(json_save_op(rng, vs, bad, out=out, cfg=cfg))
+        else:
+            ops.append(json_save_op(rng, cs, ("cls", [b"sensor", bad, 7]), out=out, cfg=cfg))
+        ops.append(json_save_op(rng, vs, pre, out=out, cfg=cfg))
+        ops.append(json_save_op(rng, cs, ("cls", [b"second", pre, -1]), out=out, cfg=cfg))
+    # documents of several kilobytes (beyond the writers' internal buffers)
+    for _ in range(4 if tier == "quick" else 60):
+        big = ("vec", ("cls", [(False, b"id", ("leaf", "i32")), (False, b"text", ("leaf", "s"))]))
+        v = [("cls", [i, G.rand_text(rng, False, maxlen=40)]) for i in range(rng.choice([60, 150, 400]))]
+        ops.append(json_save_op(rng, big, v))
+        ops.append(json_save_op(rng, ("leaf", "s"), b"".join(G.rand_text(rng, False, maxlen=40) for _ in range(rng.choice([80, 300])))))
     # every leaf type at root / in vector / as member, limits
     for t in G.LEAVES + ["ll", "ull"]:
         for _ in range(3 if tier == "quick" else 40):
@@ -196,6 +218,11 @@ def gen_xml_saves(rng, tier, boost, count):
         v = G.rand_value(rng, s, xml=True, finite=rng.random() < 0.95)
         root = G.rand_xml_name(rng) if rng.random() < 0.3 else None
         ops.append(xml_save_op(rng, s, v, root=root))
+    # documents of several kilobytes (pugixml flushes its writer in 2 KiB chunks), to a string and to streams
+    for _ in range(6 if tier == "quick" else 80):
+        big = ("vec", ("cls", [(False, b"id", ("leaf", "i32")), (False, b"text", ("leaf", "s"))]))
+        v = [("cls", [i, b"t" + G.rand_text(rng, True, maxlen=30) + b"x"]) for i in range(rng.choice([40, 120, 400]))]
+        ops.append(xml_save_op(rng, big, v, out=rng.choice(["str", "str", None])))
     # every leaf type in a vector / as member / as attribute, limits
     for t in G.LEAVES:
         for _ in range(2 if tier == "quick" else 30):
